@@ -1,4 +1,5 @@
 import ReplicatProofs.Lemmas.RepoAccess
+import ReplicatProofs.Lemmas.TimeKey
 /-!
 # C15 — restore and the listings select exactly what the filters and timestamps say
 
@@ -230,6 +231,68 @@ theorem names_agree (enc : Bool) (u : User) (sre : Nat → Bool) (s : Store) (h 
       obtain ⟨l', ⟨_, hc⟩, rfl⟩ := hn
       simp only [contains_cons, contains_nil, Bool.or_false, beq_iff_eq] at hc
       exact ⟨l'.fam, by rw [hc]⟩
+
+/-! ## the order does not depend on the time zone of any process
+
+The theorems above order snapshots by `Body.ts`, the UTC timestamp.  The code orders them by a key derived from the recorded
+string, inside a process that has a local zone.  `TimeKey.restoreKey`, `listFilesKey`, `listSnapshotsKey`, `recordedClock` are
+the KINDS of those keys read from the source on every run (`tools/sections/15_timekey.py`); `TimeKey.sortKey k loc t` is the key
+of kind `k` for the UTC value `t` in a process whose zone is `loc` — an arbitrary function, so every DST rule, gap and fold.
+The two theorems compile only while no key is of a zone-dependent kind (`localEpoch` = the naive value re-read as local time,
+`localWall` = the local wall clock): for those they are false (`localEpoch_misorders`, `localWall_misorders`).  A key the
+extractor cannot classify is an explicit hypothesis (then the time-zone worlds of the harness, doubled, decide). -/
+
+/-- **The order in which `restore`, `list-files` and `list-snapshots` consider snapshots is the order of their UTC timestamps,
+in whatever time zone the command runs.**  Sorting with the code's key, evaluated under any zone `loc`, IS the model's
+newest-first order by UTC timestamp — so `restore_select_spec`, `list_rows_spec`, `listfiles_rows_spec` hold for the process
+in zone `loc`, across daylight-saving gaps and folds included. -/
+theorem order_zone_independent (loc : TimeKey.Zone) :
+    (TimeKey.restoreKey ≠ .unrecognised → ∀ ls : List Loaded,
+        (ls.filterMap (·.data)).mergeSort (TimeKey.bodyGE TimeKey.restoreKey loc) = readableNewestFirst ls) ∧
+    (TimeKey.listFilesKey ≠ .unrecognised → ∀ ls : List Loaded,
+        (ls.filterMap (·.data)).mergeSort (TimeKey.bodyGE TimeKey.listFilesKey loc) = readableNewestFirst ls) ∧
+    (TimeKey.listSnapshotsKey ≠ .unrecognised → ∀ rows : List SnapRow,
+        rows.mergeSort (TimeKey.rowKeyGE TimeKey.listSnapshotsKey loc) = rows.mergeSort rowGE) := by
+  refine ⟨fun hk ls => ?_, fun hk ls => ?_, fun hk rows => ?_⟩
+  · have hz : TimeKey.restoreKey.zoneFree = true ∨ TimeKey.restoreKey = .unrecognised := by decide
+    rcases hz with hz | hz
+    · rw [TimeKey.bodyGE_eq_tsGE hz]; rfl
+    · exact absurd hz hk
+  · have hz : TimeKey.listFilesKey.zoneFree = true ∨ TimeKey.listFilesKey = .unrecognised := by decide
+    rcases hz with hz | hz
+    · rw [TimeKey.bodyGE_eq_tsGE hz]; rfl
+    · exact absurd hz hk
+  · have hz : TimeKey.listSnapshotsKey.zoneFree = true ∨ TimeKey.listSnapshotsKey = .unrecognised := by decide
+    rcases hz with hz | hz
+    · rw [TimeKey.rowKeyGE_eq_rowGE hz]
+    · exact absurd hz hk
+
+/-- **What `snapshot` records as the timestamp is strictly increasing in the true instant, in whatever zone the snapshotting
+machine lives** (it is the UTC value, not a wall-clock reading): a later snapshot never gets an earlier-or-equal recorded value
+because of a zone or a fall-back hour. -/
+theorem recorded_clock_zone_independent (hk : TimeKey.recordedClock ≠ .unrecognised) (loc : TimeKey.Zone) (t₁ t₂ : Int)
+    (hlt : t₁ < t₂) : TimeKey.sortKey TimeKey.recordedClock loc t₁ < TimeKey.sortKey TimeKey.recordedClock loc t₂ := by
+  have hz : TimeKey.recordedClock.zoneFree = true ∨ TimeKey.recordedClock = .unrecognised := by decide
+  rcases hz with hz | hz
+  · exact TimeKey.sortKey_strictMono hz loc hlt
+  · exact absurd hz hk
+
+/-- the zone-dependent kinds are really different: under a zone that springs forward, `naive.timestamp()` as a key puts an
+older snapshot (UTC value inside the skipped hour) after a newer one taken less than an hour later; the local wall clock does
+the same across the fall-back instant; under a fixed offset neither happens -/
+example : (∃ loc t₁ t₂, t₁ < t₂ ∧ TimeKey.sortKey .localEpoch loc t₂ < TimeKey.sortKey .localEpoch loc t₁) ∧
+    (∃ loc t₁ t₂, t₁ < t₂ ∧ TimeKey.sortKey .localWall loc t₂ < TimeKey.sortKey .localWall loc t₁) ∧
+    (∀ c t₁ t₂ : Int, t₁ < t₂ → TimeKey.sortKey .localEpoch (fun u => u + c) t₁ < TimeKey.sortKey .localEpoch (fun u => u + c) t₂) :=
+  ⟨⟨_, _, _, TimeKey.localEpoch_misorders⟩, ⟨_, _, _, TimeKey.localWall_misorders⟩,
+    fun c t₁ t₂ h => by simp only [TimeKey.sortKey, TimeKey.pyMktime_fixed_offset]; omega⟩
+
+/-- non-vacuity: the string key satisfies the hypotheses; under the spring-forward zone it compares two bodies by their UTC
+values (101800 lies in the skipped hour), where the re-read-as-local key compares them the other way round -/
+example : TimeKey.KeyKind.utcString ≠ .unrecognised ∧ TimeKey.KeyKind.utcString.zoneFree = true ∧
+    TimeKey.bodyGE .utcString TimeKey.springZone ⟨1, 104200, [], []⟩ ⟨1, 101800, [], []⟩ = true ∧
+    TimeKey.bodyGE .utcString TimeKey.springZone ⟨1, 101800, [], []⟩ ⟨1, 104200, [], []⟩ = false ∧
+    TimeKey.bodyGE .localEpoch TimeKey.springZone ⟨1, 101800, [], []⟩ ⟨1, 104200, [], []⟩ = true := by
+  decide
 
 /-! ## non-vacuity and the role of the hypotheses -/
 
